@@ -135,13 +135,16 @@ def Rodas(dae: nDAE,
             break
 
         # Stretch the step if within 10% of T-t.
+        last_step = False
         if t + dt >= tend:
             dt = tend - t
+            last_step = True
         else:
             dt = np.minimum(dt, 0.5 * (tend - t))
 
         if opt.fix_h:
             dt = opt.hinit
+            last_step = False
 
         if done:
             break
@@ -193,7 +196,8 @@ def Rodas(dae: nDAE,
         if err <= 1.0:
             reject = 0
             told = t
-            t = t + dt
+            # the last step ends at tend itself: t + (tend - t) need not equal tend in floating point
+            t = tend if last_step else t + dt
 
             stats.nstep = stats.nstep + 1
             # events
